@@ -1335,6 +1335,14 @@ def run_misuse(level):
     calls.append(("float symbol array [0.0, 1.5]", (np.array([0.0, 1.5]), cat)))
     calls.append(("uint32 symbol array holding 2^32 - 1", (np.array([1, 2**32 - 1], dtype=np.uint32), cat)))
     calls.append(("scalar symbol with parameter arrays", (1, famg, means[:1], stds[:1])))
+    two = np.array([0, 1], dtype=np.int32)
+    calls.append(("a concrete model with parameter arrays", (two, cat, means[:2])))
+    calls.append(("a Gaussian family with only one of its two parameter arrays", (two, famg, means[:2])))
+    calls.append(("a Gaussian family with three parameter arrays", (two, famg, means[:2], stds[:2], stds[:2])))
+    calls.append(("a categorical family with a rank-1 probability array", (two, famc, np.array([0.5, 0.5]))))
+    calls.append(("a categorical family with a rank-3 probability array", (two, famc, np.ones((2, 2, 2)) / 2)))
+    calls.append(("a family without any parameters", (two, famg)))
+    calls.append(("a rank-2 symbol array", (np.array([[0, 1], [1, 2]], dtype=np.int32), cat)))
     with Quiet():
         for cname, make, enc, state in coders:
             for prefix in ([], [0, 2, 1]):
